@@ -149,6 +149,34 @@ def canonical_part(R, rng, quick):
         M.close()
 
 
+def canonical_histories(R, rng, quick):
+    """the cell produced must be the canonical tree of the map AS IT IS NOW: serialise, mutate (new key / overwrite, both mutators), serialise again"""
+    from pytoniq_core.boc.hashmap.hashmap import HashMap
+    for it in range(40 if quick else 800):
+        w = rng.choice([1, 2, 4, 8, 16, 32, 64, 256])
+        hm = HashMap(w).with_uint_values(8)
+        model, steps = {}, []
+        for step in range(rng.randint(3, 8)):
+            op = rng.choice(['add-set_int_key', 'add-set', 'overwrite-set_int_key', 'overwrite-set', 'serialize'])
+            if op != 'serialize':
+                k = rng.choice(sorted(model)) if (op.startswith('overwrite') and model) else rng.getrandbits(w)
+                v = rng.getrandbits(8)
+                (hm.set_int_key if op.endswith('set_int_key') else hm.set)(k, v)
+                model[k] = v
+            steps.append(op)
+            if not model:
+                continue
+            W = {'width': w, 'steps': list(steps), 'model': {str(k): v for k, v in sorted(model.items())[:20]}}
+            st, cell = mon.call(hm.serialize)
+            want = dictref.encode({u(k, w): (u(v, 8), []) for k, v in model.items()}, w)
+            R.counters['oracle_evaluations'] += 1
+            R.count('canonical_history_steps')
+            if st == 'exc' or cell is None or cell.hash != want.hash:
+                R.violation(f'canonical-stale-after-{op}', f'after {steps} serialize() does not return the canonical tree of the current map', W)
+                break
+        R.case(mon.fp('chist', w, tuple(steps), tuple(sorted(model.items()))))
+
+
 # ------------------------------------------------------------------------------------------- parser half
 def lib_slice_value(s):
     return s.bits.to01(), [r.hash for r in s.refs[s.ref_offset:]]
@@ -273,11 +301,13 @@ def run(R):
     inv = bridge.CellInvariant(R).install()
     try:
         canonical_part(R, rng, quick)
+        canonical_histories(R, rng, quick)
         parser_part(R, rng, quick)
     finally:
         inv.uninstall()
     R.floor('canonical_cases', 5000 if quick else 100000)
     R.floor('canonical_random_maps', 100)
+    R.floor('canonical_history_steps', 100)
     R.floor('parser_trees', 300)
     R.floor('parser_trees_with_pruned', 50)
     R.floor('aug_extras_compared', 500)
